@@ -485,6 +485,16 @@ theorem C16_safe_containsRange (b : Bitmap) (h : b.WF) (lo hi : Bound)
   Bitmap.safe_containsRange b h lo hi hlo hhi
 example : Bitmap.Safe_containsRange exB (.incl 2) .unb := C16_safe_containsRange exB exB_wf _ _ (by decide) (by decide)
 
+/-- `insert_range`, the whole method: `util::split`, every `find_container_by_key` index is valid, the loop
+    `start_container_key..end_container_key`, every `Container::insert_range(low..=u16::MAX)` / `(0..=end_index)` call on
+    the evolving container vector, `inserted += …` (inherent.rs:230-275 with container.rs:59-69 and the store code
+    below it). -/
+theorem C16_safe_insertRange (b : Bitmap) (h : b.WF) (lo hi : Bound)
+    (hlo : Bound.le u32Max lo) (hhi : Bound.le u32Max hi) : Bitmap.Safe_insertRange b lo hi :=
+  Bitmap.safe_insertRange b h lo hi hlo hhi
+example : Bitmap.Safe_insertRange exB (.excl 2) (.incl 400000) :=
+  C16_safe_insertRange exB exB_wf _ _ (by decide) (by decide)
+
 /-- `insert_range` / `remove_range`: the `u64` counters `inserted += …`, `removed += …`
     (inherent.rs:263, :272, :398); the indices come from `find_container_by_key` (`C16_safe_search`), the container
     calls get `s ≤ e ≤ u16::MAX` (`C16_safe_container_insertRange`, `C16_safe_store`). -/
